@@ -66,7 +66,8 @@ def run(ctx):
         ctx.level = "other"
         ctx.coverage["explanation"] = "replay run (cases of the recorded class re-generated from the seed and re-run)"
     chan = [c for c in obs if c["name"].startswith("chan")]
-    obs = [c for c in obs if not c["name"].startswith("chan")]
+    opens = [c for c in obs if c["name"] == "open"]
+    obs = [c for c in obs if not c["name"].startswith("chan") and c["name"] != "open"]
     toy = [c for c in obs if c["name"].startswith("toy")]
     real = [c for c in obs if c["name"] == "real"]
     fails = [(oracle(c), c) for c in obs]
@@ -85,6 +86,16 @@ def run(ctx):
             if why:
                 chan_fails.append((why, dict(c, cert="", frames=c["frames"][:n_ + 1])))
                 break
+    # failed OpenSecureChannel exchanges must publish nothing (Props/C09.v C09_failed_open_publishes_nothing)
+    open_fails = []
+    for o in opens:
+        failed = o["open"] != "empty"
+        if o["forged"] == "deliver":
+            open_fails.append(("accepted-after-failed-open", "a MSG chunk signed with the throw-away key of the OPN exchange was delivered (open returned %s, nonce length %d, %s): it was produced without any key of the channel" % (o["open"], o["nonce_len"], o["policy"]), o))
+        elif failed and (o["instances"] != 0 or o["active"]):
+            open_fails.append(("failed-open-published-instance", "the OpenSecureChannel exchange failed (%s %s) but %d instance(s) stay in the instance table (active: %s)" % (o["open"], o.get("open_err", "")[:60], o["instances"], o["active"]), o))
+        elif o["forged"] in ("panic", "stuck"):
+            open_fails.append(("panic-after-open", "receive path %s on the forged chunk after the OPN exchange" % o["forged"], o))
     corr_ok, mism, idx = True, [], []
     chan_mism = []
     if rp is None and chan:
@@ -112,11 +123,12 @@ def run(ctx):
     ctx.coverage.update({
         "evaluations": len(obs),
         "distinct_nontrivial": len({c["chunk"] for c in obs if not c["same"]}),
-        "rule": "channel level: secured client/server channels (Sign, SignAndEncrypt; opening instance with/without algorithm) fed through readChunk with sequences of the peer's own chunks interleaved with forged plaintext OPN chunks (policy None with and without certificate, real policy + certificate, unknown and empty policy URIs), plaintext MSG chunks and foreign channel ids, compared frame by frame with Model.RecvFrame.read_frame in Coq and checked by the oracle (nothing forged is handed on, own chunks still accepted afterwards); instance level: toy algorithm (xor cipher with block check, folding MAC; signature lengths 20/32/300) plugged into a real channelInstance: symmetric MSG and asymmetric OPN chunks x None/Sign/SignAndEncrypt, each produced by the real signAndEncrypt and then mutated (bit flips, multi-byte, truncation to EVERY length for one chunk per configuration, appended bytes, wrong MAC key, wrong cipher key, unsecured, zero signature, garbage) -> model evaluated in Coq on the same bytes; plus every registered symmetric policy x Sign/SignAndEncrypt x client/server real channels over TCP with the same mutations (oracle only); distinct = distinct mutated chunk byte strings",
+        "rule": "OpenSecureChannel exchanges on real server channels (asymmetric OPN request from a throw-away certificate, client nonce null / empty / 1 byte / 32 bytes) followed by a MSG chunk signed with the throw-away key: a failed exchange must leave the instance table empty and the chunk must be rejected; channel level: secured client/server channels (Sign, SignAndEncrypt; opening instance with/without algorithm) fed through readChunk with sequences of the peer's own chunks interleaved with forged plaintext OPN chunks (policy None with and without certificate, real policy + certificate, unknown and empty policy URIs), plaintext MSG chunks and foreign channel ids, compared frame by frame with Model.RecvFrame.read_frame in Coq and checked by the oracle (nothing forged is handed on, own chunks still accepted afterwards); instance level: toy algorithm (xor cipher with block check, folding MAC; signature lengths 20/32/300) plugged into a real channelInstance: symmetric MSG and asymmetric OPN chunks x None/Sign/SignAndEncrypt, each produced by the real signAndEncrypt and then mutated (bit flips, multi-byte, truncation to EVERY length for one chunk per configuration, appended bytes, wrong MAC key, wrong cipher key, unsecured, zero signature, garbage) -> model evaluated in Coq on the same bytes; plus every registered symmetric policy x Sign/SignAndEncrypt x client/server real channels over TCP with the same mutations (oracle only); distinct = distinct mutated chunk byte strings",
         "samples": [toy[0], toy[len(toy) // 2], real[0] if real else None],
         "outcome_classes": kinds,
         "traces_validated_against_impl": len(toy),
         "real_policy_cases": len(real),
+        "open_exchanges": len(opens), "open_exchanges_failed": sum(1 for o in opens if o["open"] != "empty"),
         "channel_level_sequences": len(chan), "channel_level_frames": sum(len(c["frames"]) for c in chan),
         "channel_level_forged_frames": sum(1 for c in chan for f in c["frames"] if not f.get("own")),
         "model_impl_mismatches": len(idx),
@@ -124,6 +136,7 @@ def run(ctx):
     new, seen = 0, set()
     allf = [(key_of(c, why), why, c) for why, c in fails + [("model and implementation disagree on this chunk", c) for c in mism]]
     allf += [("accepted-forged-on-channel" if "panicked" not in why else "panic-channel", why, c) for why, c in chan_fails]
+    allf += [(k_, why, c) for k_, why, c in open_fails]
     allf += [("channel-model-mismatch", "model (Model.RecvFrame) and implementation disagree on this frame sequence", c) for c in chan_mism]
     for key, why, c in allf:
         if key in seen:
